@@ -57,4 +57,33 @@ package types
 //@   invariant #1 idx: rangeindex >= 0 - 1 && rangeindex < len(data.Entries)
 //@   invariant #1 ok:  forall j:Int :: 0 <= j && j <= rangeindex ==> data.Entries[j].Feed.LatestHistory >= 1 && data.Entries[j].Feed.LatestHistory <= 100
 //@   ensures history_ok: err == nil ==> (forall j:Int :: 0 <= j && j < len(data.Entries) ==> data.Entries[j].Feed.LatestHistory >= 1 && data.Entries[j].Feed.LatestHistory <= 100)
+// ... and it accepts every feed the message handlers accept (C12: what CreateFeed / EditFeed let into the store must
+// re-import): the five field validators shared with MsgCreateFeed.ValidateBasic are all it may reject on.
+//@   ensures accepts_valid: (forall j:Int :: 0 <= j && j < len(data.Entries) ==> feedFieldsOK(data.Entries[j].Feed)) ==> err == nil
+//@ end
+// the field validators (string / regular-expression checks): outcome = a fixed predicate of the argument (trusted)
+//@ define feedFieldsOK(f) = ufb("feed_name_ok", f.FeedName) && ufb("feed_desc_ok", f.Description) && ufb("feed_aggr_ok", f.AggregateFunc) && f.LatestHistory >= 1 && f.LatestHistory <= 100 && ufb("feed_creator_ok", f.Creator)
+//@ func ValidateFeedName(feedName)
+//@   property C12
+//@   trusted
+//@   returns err
+//@   ensures ok: (err == nil) == ufb("feed_name_ok", feedName)
+//@ end
+//@ func ValidateDescription(desc)
+//@   property C12
+//@   trusted
+//@   returns err
+//@   ensures ok: (err == nil) == ufb("feed_desc_ok", desc)
+//@ end
+//@ func ValidateAggregateFunc(aggregateFunc)
+//@   property C12
+//@   trusted
+//@   returns err
+//@   ensures ok: (err == nil) == ufb("feed_aggr_ok", aggregateFunc)
+//@ end
+//@ func ValidateCreator(creator)
+//@   property C12
+//@   trusted
+//@   returns err
+//@   ensures ok: (err == nil) == ufb("feed_creator_ok", creator)
 //@ end
